@@ -107,8 +107,140 @@ let iter_lines (file : string) (f : int -> string -> unit) =
    with End_of_file -> ());
   close_in ic
 
+
+(* ------------------------------------------------------------------ pie histories *)
+let z_of_int (i : int) : z = if i = 0 then Z0 else if i > 0 then Zpos (pos_of_int i) else Zneg (pos_of_int (-i))
+let int_of_z (x : z) : int = match x with Z0 -> 0 | Zpos p -> int_of_pos p | Zneg p -> - (int_of_pos p)
+let pz x = string_of_int (int_of_z x)
+let rec nat_of_int (i : int) : nat = if i = 0 then O else S (nat_of_int (i - 1))
+
+type toks = { mutable l : string list }
+let next (t : toks) : string = match t.l with x :: tl -> t.l <- tl; x | [] -> failwith "unexpected end of case"
+let peek (t : toks) : string option = match t.l with x :: _ -> Some x | [] -> None
+let num (t : toks) : int = int_of_string (next t)
+
+let parse_expr t = match next t with
+  | "k" -> EConst (z_of_int (num t)) | "a" -> EAcc | "p" -> EAccPlus (z_of_int (num t)) | x -> failwith ("bad expr " ^ x)
+let parse_cond t = match next t with
+  | "e" -> CAccEq (z_of_int (num t))
+  | "m" -> let m = num t in let k = num t in CAccMod (z_of_int m, z_of_int k)
+  | "l" -> CLastEq (z_of_int (num t))
+  | x -> failwith ("bad cond " ^ x)
+let rec parse_code t : code = match next t with
+  | "D" -> CDone
+  | "T" -> CRet (parse_expr t)
+  | "P" -> CPanic
+  | "R" -> let r = num t in let c = num t in CRead (n_of_int r, n_of_int c, parse_code t)
+  | "Q" -> let q = num t in let c = num t in CReq (n_of_int q, n_of_int c, parse_code t)
+  | "W" -> let r = num t in let c = num t in let e = parse_expr t in CWrite (n_of_int r, n_of_int c, e, parse_code t)
+  | "N" -> let r = num t in let c = num t in let e = parse_expr t in CWrittenTo (n_of_int r, n_of_int c, e, parse_code t)
+  | "X" -> let r = num t in let c = num t in CRemove (n_of_int r, n_of_int c, parse_code t)
+  | "I" -> let b = parse_cond t in let th = parse_code t in let el = parse_code t in CIf (b, th, el)
+  | x -> failwith ("bad code token " ^ x)
+
+let cres_text = function Consistent -> "ok" | Inconsistent -> "inc" | CErr e -> "err" ^ pz e
+let b01 b = if b then "1" else "0"
+let event_text (e : event) : string = match e with
+  | EBuildStart -> "BS" | EBuildEnd -> "BE"
+  | ERequireStart (t, c) -> Printf.sprintf "RS %s %s" (pn t) (pn c)
+  | ERequireEnd (t, c, st, o) -> Printf.sprintf "RE %s %s %s %s" (pn t) (pn c) (pz st) (pz o)
+  | EReadStart (r, c) -> Printf.sprintf "rS %s %s" (pn r) (pn c)
+  | EReadEnd (r, c, st) -> Printf.sprintf "rE %s %s %s" (pn r) (pn c) (pz st)
+  | EWriteStart (r, c) -> Printf.sprintf "wS %s %s" (pn r) (pn c)
+  | EWriteEnd (r, c, st) -> Printf.sprintf "wE %s %s %s" (pn r) (pn c) (pz st)
+  | ECheckTaskStart (t, c, st) -> Printf.sprintf "CTS %s %s %s" (pn t) (pn c) (pz st)
+  | ECheckTaskEnd (t, c, st, i) -> Printf.sprintf "CTE %s %s %s %s" (pn t) (pn c) (pz st) (b01 i)
+  | ECheckResStart (r, c, st) -> Printf.sprintf "CRS %s %s %s" (pn r) (pn c) (pz st)
+  | ECheckResEnd (r, c, st, x) -> Printf.sprintf "CRE %s %s %s %s" (pn r) (pn c) (pz st) (cres_text x)
+  | EExecStart t -> "XS " ^ pn t
+  | EExecEnd (t, o) -> Printf.sprintf "XE %s %s" (pn t) (pz o)
+  | ESchedByTaskStart t -> "SBTS " ^ pn t
+  | ESchedByTaskEnd t -> "SBTE " ^ pn t
+  | ECheckReqTaskStart (t, c, st) -> Printf.sprintf "CQS %s %s %s" (pn t) (pn c) (pz st)
+  | ECheckReqTaskEnd (t, c, st, i) -> Printf.sprintf "CQE %s %s %s %s" (pn t) (pn c) (pz st) (b01 i)
+  | ESchedByResStart r -> "SBRS " ^ pn r
+  | ESchedByResEnd r -> "SBRE " ^ pn r
+  | ECheckReadResStart (t, c, st) -> Printf.sprintf "CDS %s %s %s" (pn t) (pn c) (pz st)
+  | ECheckReadResEnd (t, c, st, x) -> Printf.sprintf "CDE %s %s %s %s" (pn t) (pn c) (pz st) (cres_text x)
+  | ESchedTask t -> "ST " ^ pn t
+
+let akind_text = function
+  | ACycle -> "cycle" | AHidden -> "hidden" | AOverlap -> "overlap" | ATaskPanic -> "panic" | ABug k -> "bug" ^ pn k
+
+let node_text (nd : n) : string = (if is_tn nd then "T" else "R") ^ pn (un nd)
+
+let dump (w : world) : string list =
+  let g = w.gr in
+  let nodes = List.sort (fun (_, a) (_, b) -> compare (int_of_n a.rank) (int_of_n b.rank)) g.infos in
+  List.map (fun (nd, inf) ->
+    let o = if is_tn nd then (match List.assoc_opt (un nd) (List.map (fun (k, v) -> (k, v)) w.outs) with Some v -> pz v | None -> "-") else "-" in
+    let dep_text (target : n) (d : dep option) = match d with
+      | Some DReserved -> Printf.sprintf "V%s/-/-" (node_text target)
+      | Some (DRequire (_, c, st)) -> Printf.sprintf "Q%s/%s/%s" (node_text target) (pn c) (pz st)
+      | Some (DRead (_, c, st)) -> Printf.sprintf "R%s/%s/%s" (node_text target) (pn c) (pz st)
+      | Some (DWrite (_, c, st)) -> Printf.sprintf "W%s/%s/%s" (node_text target) (pn c) (pz st)
+      | None -> "?" ^ node_text target in
+    let kind_text (src : n) (d : dep option) = (match d with
+      | Some DReserved -> "V" | Some (DRequire _) -> "Q" | Some (DRead _) -> "R" | Some (DWrite _) -> "W" | None -> "?") ^ node_text src in
+    Printf.sprintf "d %s %s %s O:%s I:%s" (node_text nd) (pn inf.rank) o
+      (join "," (List.map (fun (c, d) -> dep_text c d) (get_outgoing_edges g nd)))
+      (join "," (List.map (fun (p, d) -> kind_text p d) (get_incoming_edges g nd)))) nodes
+
+let run_pie_case (idx : int) (toks : string list) (fuel : nat) (with_dump : bool) =
+  Printf.printf "C %d\n" idx;
+  let t = { l = toks } in
+  if next t <> "T" then failwith "expected T";
+  let ntasks = num t in
+  let tb = ref [] in
+  for _ = 1 to ntasks do
+    let id = num t in
+    let c = parse_code t in
+    tb := !tb @ [(n_of_int id, c)]
+  done;
+  if next t <> "H" then failwith "expected H";
+  let w = ref init_world in
+  let step = ref 0 in
+  while peek t <> None do
+    (match next t with
+     | "E" -> let r = num t in let v = num t in
+       let (_, w') = run_step !tb fuel !w (HEdit (n_of_int r, Some (z_of_int v))) in w := w'
+     | "D" -> let r = num t in
+       let (_, w') = run_step !tb fuel !w (HEdit (n_of_int r, None)) in w := w'
+     | "F" -> let k = num t in
+       let rs = List.init k (fun _ -> n_of_int (num t)) in
+       let (_, w') = run_step !tb fuel !w (HEnv rs) in w := w'
+     | "S" ->
+       let k = num t in
+       let sops = List.init k (fun _ -> match next t with
+           | "q" -> SRequire (n_of_int (num t))
+           | "b" -> let m = num t in SBottomUp (List.init m (fun _ -> n_of_int (num t)))
+           | x -> failwith ("bad sop " ^ x)) in
+       Printf.printf "S %d\n" !step;
+       let (rs, w') = run_step !tb fuel !w (HSession sops) in
+       w := w';
+       List.iteri (fun i r ->
+           let sop = List.nth sops i in
+           let pre = match sop with SRequire tk -> "o q " ^ pn tk | SBottomUp _ -> "o b" in
+           match r with
+           | RDone (Some o) -> Printf.printf "%s -> %s\n" pre (pz o)
+           | RDone None -> Printf.printf "%s -> done\n" pre
+           | RAbort k -> Printf.printf "%s -> abort %s\n" pre (akind_text k)
+           | RFuel -> Printf.printf "%s -> FUEL\n" pre) rs;
+       Printf.printf "e %s\n" (join " " (List.rev_map pz !w.errs));
+       Printf.printf "v %s\n" (join ";" (List.rev_map event_text !w.trace));
+       if with_dump then List.iter print_endline (dump !w);
+       let m = List.sort compare (List.map (fun (k, v) -> (int_of_n k, int_of_z v)) !w.rstate) in
+       Printf.printf "m %s\n" (join " " (List.map (fun (k, v) -> Printf.sprintf "%d=%d" k v) m))
+     | x -> failwith ("bad step " ^ x));
+    incr step
+  done
+
 let () =
   match Array.to_list Sys.argv with
+  | _ :: "pie" :: file :: rest ->
+    let fuel = nat_of_int 3000 in
+    let with_dump = not (List.mem "--nodump" rest) in
+    iter_lines file (fun i l -> run_pie_case i (split_ws l) fuel with_dump)
   | _ :: "graph" :: file :: rest ->
     let queries = not (List.mem "--noq" rest) in
     iter_lines file (fun i l -> run_graph_case i (split_ws l) queries)
